@@ -203,20 +203,22 @@ Fixpoint rep_loop (cfg : mcfg) (nw : Z) (s : mars) (prev : list Z) (recs : list 
   end.
 
 (* last-touch fold of an event stream: (state, colour) of address a *)
-Definition touch_state (t : Z) : option Z :=
+Definition touch_state (reads : bool) (t : Z) : option Z :=
   match t with
-  | 6 => Some 6 | 4 => Some 1 | 9 => Some 2 | 11 => Some 3 | 10 => Some 4 | _ => None
+  | 6 => Some 6 | 4 => Some 1 | 9 => Some 2 | 11 => Some 3 | 10 => Some 4
+  | 8 => if reads then Some 5 else None          (* reads count only when the recorder is told to record them *)
+  | _ => None
   end.
-Definition touches (M : Z) (lens : list Z) (r : Z * Z * Z * Z) (a : Z) : option (Z * Z) :=
+Definition touches (reads : bool) (M : Z) (lens : list Z) (r : Z * Z * Z * Z) (a : Z) : option (Z * Z) :=
   if q_t r =? 3 then
     let len := nth (Z.to_nat (q_w r)) lens 0 in
     if ((a - q_a r) mod M <? len) then Some (2, q_w r) else None
-  else match touch_state (q_t r) with
+  else match touch_state reads (q_t r) with
        | Some st => if q_a r =? a then Some (st, q_w r) else None
        | None => None
        end.
-Definition last_touch (M : Z) (lens : list Z) (evs : list (Z * Z * Z * Z)) (a : Z) : Z * Z :=
-  fold_left (fun acc r => match touches M lens r a with Some x => x | None => acc end) evs (0, -1).
+Definition last_touch (reads : bool) (M : Z) (lens : list Z) (evs : list (Z * Z * Z * Z)) (a : Z) : Z * Z :=
+  fold_left (fun acc r => match touches reads M lens r a with Some x => x | None => acc end) evs (0, -1).
 
 Fixpoint pairs2 (l : list Z) : list (Z * Z) :=
   match l with s :: c :: t => (s, c) :: pairs2 t | _ => [] end.
@@ -228,13 +230,20 @@ Definition all_reports (impl : list (list Z)) : list (Z * Z * Z * Z) :=
                      | _ => []
                      end) impl.
 
-Definition mon_recorder (bc : bcase) (impl : list (list Z)) : list (list Z) :=
+Fixpoint before_reset (impl : list (list Z)) : list (list Z) :=
+  match impl with
+  | [] => []
+  | r :: t => match r with 12 :: _ => [] | _ => r :: before_reset t end
+  end.
+
+Definition mon_recorder (bc : bcase) (impl0 : list (list Z)) : list (list Z) :=
+  let impl := before_reset impl0 in
   match find_rec 13 impl with
   | Some (_ :: d) =>
     let M := Z.of_N (c_size (bc_cfg bc)) in
     let lens := map (fun w => Z.of_nat (length (bw_code w))) (bc_ws bc) in
     let evs := all_reports impl in
-    let exp := map (fun a => last_touch M lens evs (Z.of_N a)) (nseq (c_size (bc_cfg bc))) in
+    let exp := map (fun a => last_touch (flag (bc_flags bc) 8) M lens evs (Z.of_N a)) (nseq (c_size (bc_cfg bc))) in
     if list_eqb (fun x y => (fst x =? fst y) && (snd x =? snd y)) exp (pairs2 d) then [] else [[35]]
   | _ => []
   end.
@@ -250,7 +259,8 @@ Definition mon_reports (bc : bcase) (impl : list (list Z)) : list (list Z) :=
                           | 2 :: _ :: 0 :: reps =>
                             existsb (fun q => (q_a q <? 0) || (Z.of_N (mc_M cfg) <=? q_a q)) (quads reps)
                           | _ => false end) impl in
-    let cyc_recs := filter (fun r => (tag_of r =? 3) || (tag_of r =? 4) || (tag_of r =? 11)) impl in
+    (* a second battle after Reset (record 12) is not followed by this monitor: the first one only *)
+    let cyc_recs := filter (fun r => (tag_of r =? 3) || (tag_of r =? 4) || (tag_of r =? 11)) (before_reset impl) in
     (if spawn_bad then [[30; -1]] else [])
     ++ rep_loop cfg (Z.of_nat (length (bc_ws bc))) s (m_dump (mc_M cfg) s) cyc_recs 0
     ++ mon_recorder bc impl
